@@ -31,6 +31,9 @@ const VERIFY_FILE_CRC: u32 = 0x02;
 const VERIFY_FILE_MD5: u32 = 0x04;
 const VERIFY_SIGNATURE: u32 = 0x10;
 const ATTR_FLAGS: u32 = VERIFY_FILE_CRC | VERIFY_FILE_MD5;
+const VERIFY_ALL_FILES: u32 = 0x20;
+/// Pseudo selection: the archive-wide verifier SFileVerifyArchive(ALL_FILES) instead of SFileVerifyFile on the name.
+const ARCHIVE_WIDE: u32 = 0x1000;
 
 /// SFileOpenArchive + SFileVerifyFile(name, flags) + SFileCloseArchive. None = the archive did not open.
 fn c_verify(path: &Path, names: &[&str], flags: u32) -> Option<Vec<bool>> {
@@ -70,6 +73,7 @@ fn flags_name(flags: u32) -> &'static str {
         VERIFY_FILE_CRC => "FILE_CRC",
         VERIFY_FILE_MD5 => "FILE_MD5",
         ATTR_FLAGS => "FILE_CRC|FILE_MD5",
+        ARCHIVE_WIDE => "SFileVerifyArchive(ALL_FILES)",
         _ => "other",
     }
 }
@@ -81,13 +85,20 @@ fn flags_sfx(flags: u32) -> String {
 
 /// The flag selections whose attribute the archive carries (attr 1 = CRC32 only, 2 = CRC32 + MD5).
 fn flag_selections(attr: u8) -> &'static [u32] {
-    if attr == 2 { &[ATTR_FLAGS, VERIFY_FILE_CRC, VERIFY_FILE_MD5, 0] } else { &[ATTR_FLAGS, VERIFY_FILE_CRC, 0] }
+    if attr == 2 { &[ATTR_FLAGS, VERIFY_FILE_CRC, VERIFY_FILE_MD5, ARCHIVE_WIDE, 0] } else { &[ATTR_FLAGS, VERIFY_FILE_CRC, ARCHIVE_WIDE, 0] }
 }
 
 /// The attribute verifier on one file, then the content.
 fn probe_attr(path: &Path, targets: &[&StoredFile], flags: u32) -> Verdict {
     let names: Vec<&str> = targets.iter().map(|f| f.name.as_str()).collect();
-    let Some(res) = c_verify(path, &names, flags) else {
+    if flags == ARCHIVE_WIDE {
+        match c_verify_archive(path, VERIFY_ALL_FILES) {
+            None => return Verdict::Detected("SFileOpenArchive:false".into()),
+            Some(false) => return Verdict::Detected("SFileVerifyArchive:false".into()),
+            Some(true) => {}
+        }
+    }
+    let Some(res) = (if flags == ARCHIVE_WIDE { Some(vec![true; names.len()]) } else { c_verify(path, &names, flags) }) else {
         return Verdict::Detected("SFileOpenArchive:false".into());
     };
     if res.iter().any(|ok| !ok) {
@@ -282,7 +293,9 @@ fn attr_name(a: u8) -> &'static str {
 fn baseline(c: &mut Case, sp: &FSpec, b: &Built) -> bool {
     let (method, enc) = (method_name(sp.cfg.method), sp.cfg.enc_name());
     let users: Vec<&StoredFile> = b.user_files().map(|x| x.1).collect();
-    let names: Vec<&str> = users.iter().map(|f| f.name.as_str()).collect();
+    // the intact archive verifies for every file it holds, the one without content included
+    let verified: Vec<&StoredFile> = b.files.iter().filter(|f| matches!(f.shape, "single" | "3-sector" | "9-sector" | "empty")).collect();
+    let names: Vec<&str> = verified.iter().map(|f| f.name.as_str()).collect();
     let scratch = b.path.parent().unwrap().to_path_buf();
     // in a child as well: the intact archive must not abort the caller either
     let v = isolated(&scratch, || {
@@ -292,7 +305,7 @@ fn baseline(c: &mut Case, sp: &FSpec, b: &Built) -> bool {
                 Some(r) => {
                     for (k, ok) in r.iter().enumerate() {
                         if !ok {
-                            return Verdict::Detected(format!("SFileVerifyFile({:?}, flags = {fname}) returned false|{}", names[k], users[k].shape_sig()));
+                            return Verdict::Detected(format!("SFileVerifyFile({:?}, flags = {fname}) returned false|{}", names[k], verified[k].shape_sig()));
                         }
                     }
                 }
@@ -301,6 +314,10 @@ fn baseline(c: &mut Case, sp: &FSpec, b: &Built) -> bool {
         match c_verify_archive(&b.path, VERIFY_SIGNATURE) {
             Some(true) => {}
             _ => return Verdict::Detected("SFileVerifyArchive(SIGNATURE) returned false on an unsigned archive|archive".into()),
+        }
+        match c_verify_archive(&b.path, VERIFY_ALL_FILES) {
+            Some(true) => {}
+            _ => return Verdict::Detected("SFileVerifyArchive(ALL_FILES) returned false|archive".into()),
         }
         probe_attr(&b.path, &users, sp.flags)
     });
